@@ -247,6 +247,10 @@ mod ty {
         pub n: SNewtype,
     }
     #[derive(Deserialize, Debug)]
+    pub struct RootNew(pub SInt);
+    #[derive(Deserialize, Debug)]
+    pub struct RootNewNested(pub Outer);
+    #[derive(Deserialize, Debug)]
     pub struct SVecInner {
         pub v: Vec<Inner>,
     }
@@ -374,7 +378,21 @@ fn routes<T: DeserializeOwned>(text: &str) -> String {
         Ok(v) => route_toml(v.try_into::<T>()),
         Err(_) => "parse-error".into(),
     };
-    format!("toml_from_str={r1} edit_from_str={r2} from_imdoc={r3} from_docmut={r4} value_first={r5} table_first={r6}")
+    // 7. a DocumentMut rebuilt from the entries of an ImDocument: keys and items keep their spans, the text is gone
+    //    (the same happens when a value is taken out of an ImDocument and deserialized on its own)
+    let r7 = match toml_edit::ImDocument::parse(text.to_string()) {
+        Ok(d) => {
+            let mut dm = toml_edit::DocumentMut::new();
+            for (k, _) in d.as_table().iter() {
+                if let Some((key, item)) = d.as_table().get_key_value(k) {
+                    dm.as_table_mut().insert_formatted(key, item.clone());
+                }
+            }
+            route_edit(toml_edit::de::from_document::<T>(dm))
+        }
+        Err(_) => "parse-error".into(),
+    };
+    format!("toml_from_str={r1} edit_from_str={r2} from_imdoc={r3} from_docmut={r4} value_first={r5} table_first={r6} respanned={r7}")
 }
 
 fn cmd_deerr(args: &Args) -> String {
@@ -417,6 +435,10 @@ fn cmd_deerr(args: &Args) -> String {
         "newtype" => routes::<SNew>(text),
         "vecinner" => routes::<SVecInner>(text),
         "dt" => routes::<SDt>(text),
+        "rootnew" => routes::<RootNew>(text),
+        "rootnewnested" => routes::<RootNewNested>(text),
+        "rootopt" => routes::<Option<SInt>>(text),
+        "rootmap" => routes::<std::collections::BTreeMap<String, i64>>(text),
         _ => return "unknown-type".into(),
     };
     format!("exp={exp} {r}")
